@@ -297,3 +297,27 @@ def obligations():
                       bounds=dict(vertices=2, edges=2, faces=2, cells=2, face_valence=3, cell_valence=3, span='any span of the mesh'),
                       note='write_%s then read_topo_chunk on the bytes written, for any well-formed mesh within the caps without pending deletions and any span; kernel add_* record what they receive' % ent))
     return obs
+
+# ---------------------------------------------------------------------------------------------------------------
+# C07 / C18: BinaryFileReader::compatibility<MeshT>() per mesh type (tier U, loop-free): Ok only for a header whose
+# vertex dimension equals the mesh's, whose topology type fits a specialised kernel, whose header version is 1 and
+# whose entity counts fit a handle. This is the invariant the vertex-chunk reader relies on (it sizes the chunk from
+# the file's vertex_dim and reads the mesh's dimension per vertex). read_header is a stub (state arbitrary).
+COMPAT_H = '''
+void harness(void) {
+  struct IO_detail_BinaryFileReader r;
+  int res = verif_drv__compat_%(drv)s(&r);
+  _Bool ok = r.state_ != 7 /* ReadState::Error */ && r.file_header_.header_version == 1 && r.file_header_.vertex_dim == %(dim)d && %(topo)s &&
+             r.file_header_.n_verts <= 2147483647UL && r.file_header_.n_edges <= 2147483647UL && r.file_header_.n_faces <= 2147483647UL && r.file_header_.n_cells <= 2147483647UL;
+  __CPROVER_assert((res == 0) == ok, "C07.compatibility.%(drv)s.ok_exactly_for_a_header_with_the_mesh_dimension_a_fitting_topology_type_version_1_and_counts_that_fit_a_handle");
+  __CPROVER_assert(res != 0 || r.file_header_.vertex_dim == %(dim)d, "C07.compatibility.%(drv)s.an_accepted_file_has_exactly_the_vertex_dimension_of_the_mesh (the vertex chunk reader depends on it)");
+}
+'''
+_base4 = obligations
+def obligations():
+    obs = _base4()
+    for drv, dim, topo in (('poly3d', 3, '1'), ('tet3d', 3, 'r.file_header_.topo_type == 1'), ('hex3d', 3, 'r.file_header_.topo_type == 2'), ('poly2d', 2, '1')):
+        obs.append(Ob(id='C07.compatibility.' + drv, props=['C07', 'C18'], quick_for=['C07', 'C18'], tu='readerinst', cfg='ovmb', tier='U', roots=['OpenVolumeMesh::verif_drv::compat_' + drv],
+                      stubs={BR + 'read_header': '{ return nondet_bool(); }'}, harness=COMPAT_H % dict(drv=drv, dim=dim, topo=topo),
+                      note='compatibility<%s>() for every header and reader state (read_header stubbed)' % drv))
+    return obs
